@@ -73,7 +73,10 @@ void Exec::op_esolver(Client &c) {
 	if (const Fault *f = op->fault("io.open_fail")) { FileFaults ff; static const int e[] = {ENOENT, EACCES, EMFILE, ENOSPC, EISDIR}; ff.open_errno = e[modn(fi(*f, "e"), 5)]; world.ffaults[path] = ff; }
 	if (const Fault *f = op->fault("io.chunk")) { FileFaults ff; ff.chunk = (int)std::max(1L, fi(*f, "n", 9)); world.ffaults[path] = ff; }
 	world.expected_paths.insert(path); world.expected_paths.insert(sol); if (!wb.empty()) world.expected_paths.insert(wb); if (!rb.empty()) world.expected_paths.insert(rb);
-	bool exists = world.files.count(path) != 0; bool damaged = info.damaged || !exists || op->fault("io.open_fail");
+	bool exists = world.files.count(path) != 0;
+	// a file from the foreign producer that nothing damaged is readable input too, and there the harness knows what the text denotes
+	bool foreign_clean = info.foreign && info.precond && !info.hit && exists && !missing && !op->fault("io.open_fail");
+	bool damaged = (info.damaged && !foreign_clean) || !exists || op->fault("io.open_fail");
 	std::string line; for (auto &a : args) line += a + " ";
 	CliResult r = run_esolver(world, args);
 	{ std::string o1 = capture_drain(1), o2 = capture_drain(2);   // esolver talks on stdout/stderr by design; not a C20 subject
@@ -100,22 +103,24 @@ void Exec::op_esolver(Client &c) {
 	if (!parse_solution(text, status, value, hv, sect, perr)) { violate("C19", "solution-file-unparsable", perr + " in " + text.substr(0, 200)); return; }
 	T("  solution file status=" + status + (hv ? " value=" + qstr(value) : ""));
 	// truth: reference solver on small problems, else the library's own certified answer
-	int truth_status = 0; Q truth_value; const RefResult &t = truth(M);
+	LP denoted = M;
+	if (foreign_clean) { denoted = info.model; if (lpfmt) { std::vector<int> er; for (size_t i = 0; i < denoted.rows.size(); i++) { bool ne = false; for (auto &kv : denoted.rows[i].coef) if (kv.second != 0) ne = true; if (!ne) er.push_back((int)i); } denoted.del_rows(er); } probe("cli.foreign_input"); }   // the LP rendering leaves out empty rows
+	int truth_status = 0; Q truth_value; const RefResult &t = truth(denoted);
 	if (t.status && t.err.empty()) { truth_status = t.status; truth_value = t.value; }
-	else { std::string e2; mpq_QSprob q2 = lib_build(M, "build", &e2); if (q2) { const Op *saved = world.cur_op; world.cur_op = 0; QSexact_set_precision(128); SolveOut so = raw_solve(q2, "exact", PRIMAL_SIMPLEX, false, false, 0, false); world.cur_op = saved; if (so.rv == 0 && definitive(so.status)) { truth_status = so.status; if (so.status == QS_LP_OPTIMAL) { QArr v(1); if (!mpq_QSget_objval(q2, v.p())) truth_value = lib_to_q(v.at(0)); } } mpq_QSfree_prob(q2); after_lib_call("cli-oracle-solve"); } }
+	else { std::string e2; mpq_QSprob q2 = lib_build(denoted, "build", &e2); if (q2) { const Op *saved = world.cur_op; world.cur_op = 0; QSexact_set_precision(128); SolveOut so = raw_solve(q2, "exact", PRIMAL_SIMPLEX, false, false, 0, false); world.cur_op = saved; if (so.rv == 0 && definitive(so.status)) { truth_status = so.status; if (so.status == QS_LP_OPTIMAL) { QArr v(1); if (!mpq_QSget_objval(q2, v.p())) truth_value = lib_to_q(v.at(0)); } } mpq_QSfree_prob(q2); after_lib_call("cli-oracle-solve"); } }
 	std::string want = truth_status == QS_LP_OPTIMAL ? "OPTIMAL" : truth_status == QS_LP_INFEASIBLE ? "INFEASIBLE" : truth_status == QS_LP_UNBOUNDED ? "UNBOUNDED" : "";
 	if (want.empty()) { probe("cli.no_truth"); return; }
 	if (status != want) {
 		// the ladder-flip known finding (C03) makes UNDEFINED a possible honest answer of the library; esolver must then say UNDEFINED, never a wrong definitive status
 		if (status == "UNDEFINED") { probe("cli.undefined_status"); return; }
-		violate("C19", "wrong-status:" + status + "-truth-" + want, "solution file says " + status + " but the problem is " + want + " (" + line + ")"); return; }
+		violate("C19", std::string(foreign_clean ? "foreign-input:" : "") + "wrong-status:" + status + "-truth-" + want, "solution file says " + status + " but the problem " + (foreign_clean ? "the file denotes " : "") + "is " + want + " (" + line + ")"); return; }
 	if (status == "OPTIMAL") {
 		if (!hv) { violate("C19", "optimal-without-value", "OPTIMAL solution file has no Value line"); return; }
 		std::vector<Q> x(M.cols.size()), rc(M.cols.size()), pi(M.rows.size()), sl(M.rows.size());
 		for (int k = 0; k < 4; k++) for (auto &kv : sect[k]) { int idx = k < 2 ? M.col_index(kv.first) : M.row_index(kv.first); if (idx < 0) { violate("C19", "unknown-name-in-solution", "solution file lists unknown name " + kv.first); return; } if (kv.second == 0) { violate("C19", "zero-listed", "solution file lists a zero entry for " + kv.first); return; } (k == 0 ? x : k == 1 ? rc : k == 2 ? pi : sl)[idx] = kv.second; }
 		Verdict v = check_optimal(M, x, pi, &rc, &sl, &value);
 		if (!v.ok) { violate("C19", "solution-not-optimal", v.why + " (" + line + ")"); return; }
-		if (value != truth_value) { violate("C19", "wrong-value", "solution file value " + qstr(value) + " but the optimum is " + qstr(truth_value)); return; }
+		if (value != truth_value) { violate("C19", std::string(foreign_clean ? "foreign-input:" : "") + "wrong-value", "solution file value " + qstr(value) + " but the optimum is " + qstr(truth_value)); return; }
 		probe("cli.optimal_certified");
 	} else probe("cli.status_" + status);
 	// -b / -B: the basis written must read back and be optimal
